@@ -1,6 +1,6 @@
 import SaModel.Props.C18Transfer
 import SaModel.Lemmas.C05ReadCont
-import SaModel.Spec.Blame
+import SaModel.Lemmas.C18SpecBridge
 /-
 C18, reader half, blame against the SPECIFICATION `Spec.blameRead` (Spec/Blame.lean): bookkeeping.
 
@@ -82,11 +82,11 @@ theorem below_eq_under (seg : List String) (l : List RPos) : below seg l = under
 theorem positionsAt_here (p : String) (a : Arr) : positionsAt p (here a) = [(p, Read.label a)] := rfl
 
 theorem positionsAt_below1 (p : String) (name : String) (l : List RPos) :
-    positionsAt p (below [Build.childName name] l) = positionsAt (rchild p name) l := by
+    positionsAt p (below [segName name] l) = positionsAt (rchild p name) l := by
   rw [below_eq_under, positionsAt_under]; rfl
 
 theorem positionsAt_below2 (p : String) (en name : String) (l : List RPos) :
-    positionsAt p (below [Build.childName en, Build.childName name] l) = positionsAt (rmapChild p en name) l := by
+    positionsAt p (below [segName en, segName name] l) = positionsAt (rmapChild p en name) l := by
   rw [below_eq_under, positionsAt_under]; rfl
 
 theorem mem_positionsAt {p : String} {l l' : List RPos} (h : ∀ q ∈ l, q ∈ l') : ∀ q ∈ positionsAt p l, q ∈ positionsAt p l' := by
